@@ -4,6 +4,9 @@
   arbitrary states, keys, elements and indices, stated with plain list operations; composed
   read-your-writes laws; and witnesses of the inputs on which the full statement fails (each one a class
   of Known.classifyColl). `_partial` theorems carry the precise hypothesis that excludes a deviation.
+  LRANGE, LTRIM, LREM and LMOVE (empty source, same key) were repaired upstream: their laws are unconditional
+  (every index, every count, every list) and the handlers are shown never to panic. The one deviation left
+  in this family is `expired-key-still-exists` (shared with the other families).
 -/
 import SugarModel.Lemmas.ListLemmas
 namespace Sugar.Props.C15
@@ -73,28 +76,50 @@ theorem lindex_head_last (c : Ctx) (s : State) (k x : Bytes) (r : List Bytes) (e
     rw [if_neg h1, if_pos h2, h3, List.getLast_eq_getElem]
     simp
 
-/-- **LRANGE returns the inclusive range** (`inclRange`: negative start from the tail, end clamped), for a
-    non-negative end index other than exactly the length and a start index not before the head.
-    Outside these hypotheses see `lrange_neg_end`, `lrange_end_eq_len_panics_witness`,
-    `lrange_start_before_head_panics_witness`. -/
-theorem lrange_partial (c : Ctx) (s : State) (k st en : Bytes) (i j : Int) (xs : List Bytes) (ex : Option Int)
+/-- **LRANGE returns exactly the reference slice, for every start and every end index**: the inclusive
+    range `inclRange xs i j` of the property statement (Spec.normRange: a negative index counts from the tail,
+    `len + idx`; a start before the head is clamped to 0, an end past the tail to `len - 1`; start > end or
+    start ≥ len gives the empty array). `st`, `en` are any texts that parse to the 64-bit integers `i`, `j`.
+    No hypothesis on the indices: in particular the run is never a panic. -/
+theorem lrange_range (c : Ctx) (s : State) (k st en : Bytes) (i j : Int) (xs : List Bytes) (ex : Option Int)
     (h : s.lookup c.db k = some ⟨.list xs, ex⟩) (hlive : (⟨.list xs, ex⟩ : Entry).expired c.now = false)
-    (hi : parseInt64 st = some i) (hj : parseInt64 en = some j)
-    (hj0 : 0 ≤ j) (hjl : j ≠ xs.length) (hi0 : -(xs.length : Int) ≤ i) :
+    (hi : parseInt64 st = some i) (hj : parseInt64 en = some j) :
     (handleLRange c [b "lrange", k, st, en]).run c s = (s, .done (.ok (bulkArr (inclRange xs i j)))) := by
   simp [handleLRange, keysExist_single, h, getValues_live _ _ _ _ h hlive, asList?, hi, hj,
-    lrangePure_eq xs i j hj0 hjl hi0, Prog.ofOutcome]
+    lrangePure_eq xs i j, Prog.ofOutcome]
 
-/-- what LRANGE does with a negative end index: **every** negative end behaves as -1 (the handler computes
-    `len - end` instead of `len + end`); so `-1` is right and anything below is not
-    (class `lrange-negative-end-miscomputed`, witness below) -/
-theorem lrange_neg_end (c : Ctx) (s : State) (k st en : Bytes) (i j : Int) (xs : List Bytes) (ex : Option Int)
-    (h : s.lookup c.db k = some ⟨.list xs, ex⟩) (hlive : (⟨.list xs, ex⟩ : Entry).expired c.now = false)
-    (hi : parseInt64 st = some i) (hj : parseInt64 en = some j)
-    (hj0 : j < 0) (hi0 : -(xs.length : Int) ≤ i) :
-    (handleLRange c [b "lrange", k, st, en]).run c s = (s, .done (.ok (bulkArr (inclRange xs i (-1))))) := by
-  simp [handleLRange, keysExist_single, h, getValues_live _ _ _ _ h hlive, asList?, hi, hj,
-    lrangePure_neg_end xs i j hj0 hi0, Prog.ofOutcome]
+/-- the reference slice spelled out for in-range non-negative indices: `lo ≤ hi < len` gives
+    `xs[lo], …, xs[hi]` — `hi - lo + 1` elements -/
+theorem inclRange_inner (xs : List Bytes) (lo hi : Nat) (h1 : lo ≤ hi) (h2 : hi < xs.length) :
+    inclRange xs lo hi = (xs.drop lo).take (hi - lo + 1) ∧ (inclRange xs lo hi).length = hi - lo + 1 := by
+  have hn : Spec.normRange xs.length lo hi = some (lo, hi) := by
+    unfold Spec.normRange
+    have hl : ¬ (xs.length = 0) := by omega
+    have a1 : ¬ ((lo : Int) < 0) := by omega
+    have a2 : ¬ ((hi : Int) < 0) := by omega
+    have a3 : ¬ ((hi : Int) ≥ (xs.length : Int)) := by omega
+    have a4 : ¬ ((lo : Int) > (hi : Int)) := by omega
+    have a5 : ¬ ((lo : Int) ≥ (xs.length : Int)) := by omega
+    simp [a1, a2, a3, a4, a5, hl]
+  unfold inclRange
+  rw [hn]
+  refine ⟨rfl, ?_⟩
+  simp only [List.length_take, List.length_drop]
+  omega
+
+/-- a negative end index counts from the tail: `LRANGE k 0 -n` drops the last `n - 1` elements
+    (the repaired computation `len + end`; the handler used to compute `len - end`) -/
+theorem inclRange_neg_end (xs : List Bytes) (n : Nat) (h1 : 1 ≤ n) (h2 : n ≤ xs.length) :
+    inclRange xs 0 (-(n : Int)) = xs.take (xs.length - n + 1) := by
+  unfold inclRange
+  generalize hr : Spec.normRange xs.length 0 (-(n : Int)) = r
+  unfold Spec.normRange at hr
+  simp only [Bool.or_eq_true, decide_eq_true_eq, beq_iff_eq] at hr
+  revert hr
+  repeat' split
+  all_goals first
+    | (intro hr; exfalso; omega)
+    | (intro hr; cases hr <;> (simp only [Int.toNat_zero, List.drop_zero, Nat.sub_zero]; congr 1; omega))
 
 /-- **LRANGE k 0 -1 returns the whole list**, element by element, byte for byte -/
 theorem lrange_all (c : Ctx) (s : State) (k : Bytes) (xs : List Bytes) (ex : Option Int)
@@ -102,7 +127,7 @@ theorem lrange_all (c : Ctx) (s : State) (k : Bytes) (xs : List Bytes) (ex : Opt
     (handleLRange c [b "lrange", k, b "0", b "-1"]).run c s = (s, .done (.ok (bulkArr xs))) := by
   have p0 : parseInt64 (b "0") = some 0 := by decide
   have p1 : parseInt64 (b "-1") = some (-1) := by decide
-  rw [lrange_neg_end c s k _ _ 0 (-1) xs ex h hlive p0 p1 (by omega) (by omega), inclRange_all]
+  rw [lrange_range c s k _ _ 0 (-1) xs ex h hlive p0 p1, inclRange_all]
 
 /-- LRANGE of a key never written is the empty array -/
 theorem lrange_absent (c : Ctx) (s : State) (k st en : Bytes) (h : s.lookup c.db k = none) :
@@ -139,12 +164,13 @@ theorem lset_out_of_range (c : Ctx) (s : State) (k idx v : Bytes) (i : Int) (xs 
     List.headD_cons, asList?, hi, Option.isSome_some, Bool.not_true, Bool.false_eq_true, if_false, hin,
     Bool.not_false, if_true, run_ret]
 
-/-- **LTRIM keeps the inclusive range** when it is non-empty (start index not before the head — otherwise
-    see `ltrim_start_before_head_panics_witness`) -/
-theorem ltrim_keeps_range_partial (c : Ctx) (s : State) (k st en : Bytes) (i j : Int) (xs : List Bytes) (ex : Option Int)
+/-- **LTRIM keeps exactly the reference slice** (the inclusive range of `lrange_range`) whenever that range
+    is non-empty, for every start and every end index (a start before the head is clamped to 0); the
+    deadline and all other keys are untouched -/
+theorem ltrim_keeps_range (c : Ctx) (s : State) (k st en : Bytes) (i j : Int) (xs : List Bytes) (ex : Option Int)
     (hm : c.cfg.maxMemory = 0)
     (h : s.lookup c.db k = some ⟨.list xs, ex⟩) (hlive : (⟨.list xs, ex⟩ : Entry).expired c.now = false)
-    (hi : parseInt64 st = some i) (hj : parseInt64 en = some j) (hi0 : -(xs.length : Int) ≤ i)
+    (hi : parseInt64 st = some i) (hj : parseInt64 en = some j)
     (hne : (Spec.normRange xs.length i j).isSome) :
     ∃ s', (handleLTrim c [b "ltrim", k, st, en]).run c s = (s', .done (.ok okReply)) ∧
       s'.lookup c.db k = some ⟨.list (inclRange xs i j), ex⟩ ∧
@@ -152,7 +178,7 @@ theorem ltrim_keeps_range_partial (c : Ctx) (s : State) (k st en : Bytes) (i j :
   refine ⟨(setValues c s [(k, .list (inclRange xs i j))]).1, ?_,
     setValues_over c s k _ _ ex hm h, fun k2 hne => setValues_other c s k k2 _ hm hne⟩
   have hs1 := (setValues_single c s k (.list (inclRange xs i j)) hm).1
-  have hp := ltrimPure_eq xs i j hi0
+  have hp := ltrimPure_eq xs i j
   cases hn : Spec.normRange xs.length i j with
   | none => rw [hn] at hne; simp at hne
   | some p =>
@@ -164,15 +190,15 @@ theorem ltrim_keeps_range_partial (c : Ctx) (s : State) (k st en : Bytes) (i j :
       List.headD_cons, asList?, hi, hj, hp, Option.isSome_some, Bool.not_true, Bool.false_eq_true, if_false, setOrErr,
       run_setValues, hs1, if_true, run_ret]
 
-/-- LTRIM to an empty range removes the key -/
-theorem ltrim_empty_range_deletes_partial (c : Ctx) (s : State) (k st en : Bytes) (i j : Int) (xs : List Bytes) (ex : Option Int)
+/-- **LTRIM to an empty range removes the key**, for every start and every end index -/
+theorem ltrim_empty_range_deletes (c : Ctx) (s : State) (k st en : Bytes) (i j : Int) (xs : List Bytes) (ex : Option Int)
     (h : s.lookup c.db k = some ⟨.list xs, ex⟩) (hlive : (⟨.list xs, ex⟩ : Entry).expired c.now = false)
-    (hi : parseInt64 st = some i) (hj : parseInt64 en = some j) (hi0 : -(xs.length : Int) ≤ i)
+    (hi : parseInt64 st = some i) (hj : parseInt64 en = some j)
     (hne : Spec.normRange xs.length i j = none) :
     ((handleLTrim c [b "ltrim", k, st, en]).run c s).2 = .done (.ok okReply) ∧
     ((handleLTrim c [b "ltrim", k, st, en]).run c s).1.lookup c.db k = none ∧
     ∀ k2, k ≠ k2 → ((handleLTrim c [b "ltrim", k, st, en]).run c s).1.lookup c.db k2 = s.lookup c.db k2 := by
-  have hp := ltrimPure_eq xs i j hi0
+  have hp := ltrimPure_eq xs i j
   rw [hne] at hp
   have hrun : (handleLTrim c [b "ltrim", k, st, en]).run c s = (deleteKey s c.db k, .done (.ok okReply)) := by
     simp only [handleLTrim, run_keysExist, keysExist_single, h, run_getValues, getValues_live _ _ _ _ h hlive,
@@ -181,7 +207,7 @@ theorem ltrim_empty_range_deletes_partial (c : Ctx) (s : State) (k st en : Bytes
   rw [hrun]
   refine ⟨rfl, by simp [lookup_deleteKey], fun k2 hne => by simp [lookup_deleteKey, hne]⟩
 
-/-- **LREM with a negative count removes the last |count| matches** (backward scan; no deviation) -/
+/-- **LREM with a negative count removes the last |count| matches** (backward scan) -/
 theorem lrem_from_tail (c : Ctx) (s : State) (k cnt v : Bytes) (n : Int) (xs : List Bytes) (ex : Option Int)
     (hm : c.cfg.maxMemory = 0)
     (h : s.lookup c.db k = some ⟨.list xs, ex⟩) (hlive : (⟨.list xs, ex⟩ : Entry).expired c.now = false)
@@ -198,12 +224,12 @@ theorem lrem_from_tail (c : Ctx) (s : State) (k cnt v : Bytes) (n : Int) (xs : L
     List.headD_cons, asList?, hn, h1, hneg, lremBwd_eq, Option.isSome_some, Bool.not_true, Bool.false_eq_true, if_false,
     if_true, setOrErr, run_setValues, hs1, run_ret]
 
-/-- **LREM with a positive count removes the first `count` matches** — provided no two matches are
-    neighbours in the list (class `lrem-skips-adjacent-matches`, witness below) -/
-theorem lrem_from_head_partial (c : Ctx) (s : State) (k cnt v : Bytes) (n : Int) (xs : List Bytes) (ex : Option Int)
+/-- **LREM with a positive count removes exactly the first `count` matches**, for every list — adjacent
+    matches included (`Spec.removeFirstN`: the plain reference scan); the reply is the number removed -/
+theorem lrem_from_head (c : Ctx) (s : State) (k cnt v : Bytes) (n : Int) (xs : List Bytes) (ex : Option Int)
     (hm : c.cfg.maxMemory = 0)
     (h : s.lookup c.db k = some ⟨.list xs, ex⟩) (hlive : (⟨.list xs, ex⟩ : Entry).expired c.now = false)
-    (hn : parseInt64 cnt = some n) (hpos : 0 < n) (hadj : NoAdjacent xs v) :
+    (hn : parseInt64 cnt = some n) (hpos : 0 < n) :
     ∃ s', (handleLRem c [b "lrem", k, cnt, v]).run c s =
         (s', .done (.ok (intReply ((xs.length : Int) - (Spec.removeFirstN xs v n.toNat).length)))) ∧
       s'.lookup c.db k = some ⟨.list (Spec.removeFirstN xs v n.toNat), ex⟩ ∧
@@ -213,14 +239,14 @@ theorem lrem_from_head_partial (c : Ctx) (s : State) (k cnt v : Bytes) (n : Int)
   have hs1 := (setValues_single c s k (.list (Spec.removeFirstN xs v n.toNat)) hm).1
   have h1 : n > 0 := hpos
   simp only [handleLRem, run_keysExist, keysExist_single, h, run_getValues, getValues_live _ _ _ _ h hlive,
-    List.headD_cons, asList?, hn, h1, lremFwd_some v xs.length xs n.toNat (Nat.le_refl _) hadj, Option.isSome_some,
+    List.headD_cons, asList?, hn, h1, lremFwd_some v xs n.toNat, Option.isSome_some,
     Bool.not_true, Bool.false_eq_true, if_false, if_true, setOrErr, run_setValues, hs1, run_ret]
 
-/-- **LREM with count 0 removes every match** — same proviso -/
-theorem lrem_all_partial (c : Ctx) (s : State) (k cnt v : Bytes) (xs : List Bytes) (ex : Option Int)
+/-- **LREM with count 0 removes every match**, for every list -/
+theorem lrem_all (c : Ctx) (s : State) (k cnt v : Bytes) (xs : List Bytes) (ex : Option Int)
     (hm : c.cfg.maxMemory = 0)
     (h : s.lookup c.db k = some ⟨.list xs, ex⟩) (hlive : (⟨.list xs, ex⟩ : Entry).expired c.now = false)
-    (hn : parseInt64 cnt = some 0) (hadj : NoAdjacent xs v) :
+    (hn : parseInt64 cnt = some 0) :
     ∃ s', (handleLRem c [b "lrem", k, cnt, v]).run c s =
         (s', .done (.ok (intReply ((xs.length : Int) - (xs.filter (· != v)).length)))) ∧
       s'.lookup c.db k = some ⟨.list (xs.filter (· != v)), ex⟩ ∧
@@ -231,8 +257,99 @@ theorem lrem_all_partial (c : Ctx) (s : State) (k cnt v : Bytes) (xs : List Byte
   have h1 : ¬ ((0 : Int) > 0) := by omega
   have h2 : ¬ ((0 : Int) < 0) := by omega
   simp only [handleLRem, run_keysExist, keysExist_single, h, run_getValues, getValues_live _ _ _ _ h hlive,
-    List.headD_cons, asList?, hn, h1, h2, lremFwd_none v xs.length xs (Nat.le_refl _) hadj, Option.isSome_some,
+    List.headD_cons, asList?, hn, h1, h2, lremFwd_none v xs, Option.isSome_some,
     Bool.not_true, Bool.false_eq_true, if_false, setOrErr, run_setValues, hs1, if_true, run_ret]
+
+/-- the reference LREM on a plain sequence: the first `n` matches from the head (`n > 0`), the last `|n|`
+    from the tail (`n < 0`), every match (`n = 0`) -/
+def lremRef (xs : List Bytes) (v : Bytes) (n : Int) : List Bytes :=
+  if n > 0 then Spec.removeFirstN xs v n.toNat
+  else if n < 0 then (Spec.removeFirstN xs.reverse v n.natAbs).reverse
+  else xs.filter (· != v)
+
+/-- **LREM refines the reference for every count and every list**: the stored list is `lremRef`, the reply
+    is the number of elements removed, the deadline and all other keys are untouched -/
+theorem lrem_refines (c : Ctx) (s : State) (k cnt v : Bytes) (n : Int) (xs : List Bytes) (ex : Option Int)
+    (hm : c.cfg.maxMemory = 0)
+    (h : s.lookup c.db k = some ⟨.list xs, ex⟩) (hlive : (⟨.list xs, ex⟩ : Entry).expired c.now = false)
+    (hn : parseInt64 cnt = some n) :
+    ∃ s', (handleLRem c [b "lrem", k, cnt, v]).run c s =
+        (s', .done (.ok (intReply ((xs.length : Int) - (lremRef xs v n).length)))) ∧
+      s'.lookup c.db k = some ⟨.list (lremRef xs v n), ex⟩ ∧
+      ∀ k2, k ≠ k2 → s'.lookup c.db k2 = s.lookup c.db k2 := by
+  by_cases hpos : 0 < n
+  · have e : lremRef xs v n = Spec.removeFirstN xs v n.toNat := by simp [lremRef, hpos]
+    rw [e]; exact lrem_from_head c s k cnt v n xs ex hm h hlive hn hpos
+  · by_cases hneg : n < 0
+    · have e : lremRef xs v n = (Spec.removeFirstN xs.reverse v n.natAbs).reverse := by
+        have : ¬ (n > 0) := by omega
+        simp [lremRef, this, hneg]
+      rw [e]; exact lrem_from_tail c s k cnt v n xs ex hm h hlive hn hneg
+    · have h0 : n = 0 := by omega
+      subst h0
+      have e : lremRef xs v 0 = xs.filter (· != v) := by simp [lremRef]
+      rw [e]; exact lrem_all c s k cnt v xs ex hm h hlive hn
+
+/-- the elements that differ from `v` and the occurrences of `v` make up the list -/
+theorem filter_ne_length (v : Bytes) : ∀ l : List Bytes, (l.filter (· != v)).length + l.count v = l.length := by
+  intro l
+  induction l with
+  | nil => rfl
+  | cons x r ih =>
+    by_cases hx : x = v
+    · subst hx; simp [List.count_cons]; omega
+    · have hx' : ¬ (v = x) := fun e => hx e.symm
+      simp [List.count_cons, hx, hx']; omega
+
+/-- what the reference removes: exactly `min n (number of matches)` elements, all of them equal to `v`
+    (the other elements keep their order) -/
+theorem removeFirstN_facts (v : Bytes) : ∀ (l : List Bytes) (n : Nat),
+    (Spec.removeFirstN l v n).length = l.length - min n (l.count v) ∧
+    (Spec.removeFirstN l v n).filter (· != v) = l.filter (· != v) := by
+  intro l
+  induction l with
+  | nil => intro n; simp [Spec.removeFirstN]
+  | cons x r ih =>
+    intro n
+    have hc := List.count_le_length (a := v) (l := r)
+    by_cases hn : n = 0
+    · subst hn; simp [Spec.removeFirstN]
+    · by_cases hx : x = v
+      · subst hx
+        obtain ⟨h1, h2⟩ := ih (n - 1)
+        have hcnt : List.count x (x :: r) = List.count x r + 1 := by simp [List.count_cons]
+        simp only [Spec.removeFirstN, hn, beq_iff_eq, if_false, if_true, h1, h2, hcnt,
+          List.length_cons, BEq.rfl]
+        refine ⟨by omega, by simp⟩
+      · obtain ⟨h1, h2⟩ := ih n
+        have hx' : ¬ (v = x) := fun e => hx e.symm
+        have hcnt : List.count v (x :: r) = List.count v r := by simp [List.count_cons, hx, hx']
+        simp only [Spec.removeFirstN, hn, beq_iff_eq, hx, if_false, List.length_cons, h1, hcnt]
+        refine ⟨by omega, by simp [hx, h2]⟩
+
+/-- **the reply of LREM is the number of matches it was asked to remove, capped by the number present**:
+    `min |count| (occurrences)`, or every occurrence for count 0 -/
+theorem lremRef_removed (xs : List Bytes) (v : Bytes) (n : Int) :
+    (xs.length : Int) - (lremRef xs v n).length = if n = 0 then (xs.count v : Int) else (min n.natAbs (xs.count v) : Nat) := by
+  have hc := List.count_le_length (a := v) (l := xs)
+  by_cases hpos : 0 < n
+  · have e : lremRef xs v n = Spec.removeFirstN xs v n.toNat := by simp [lremRef, hpos]
+    have h0 : ¬ (n = 0) := by omega
+    have ht : n.toNat = n.natAbs := by omega
+    rw [e, (removeFirstN_facts v xs n.toNat).1, if_neg h0, ht]; omega
+  · by_cases hneg : n < 0
+    · have e : lremRef xs v n = (Spec.removeFirstN xs.reverse v n.natAbs).reverse := by
+        have : ¬ (n > 0) := by omega
+        simp [lremRef, this, hneg]
+      have h0 : ¬ (n = 0) := by omega
+      rw [e, List.length_reverse, (removeFirstN_facts v xs.reverse n.natAbs).1, if_neg h0, List.length_reverse,
+        List.count_reverse]
+      omega
+    · have h0 : n = 0 := by omega
+      subst h0
+      have e : lremRef xs v 0 = xs.filter (· != v) := by simp [lremRef]
+      have hl := filter_ne_length v xs
+      rw [e, if_pos rfl]; omega
 
 /-! ### LPUSH / RPUSH / LPUSHX / RPUSHX -/
 
@@ -418,8 +535,8 @@ theorem dir_facts :
 
 /-- **LMOVE transfers one element between two distinct lists in one step**: the element at the chosen end
     of the source is removed and put at the chosen end of the destination; deadlines and all other keys
-    are untouched. (Same key: `lmove_same_key_duplicates_witness`; empty source: `lmove_empty_source_panics_witness`.) -/
-theorem lmove_partial (fromLeft toLeft : Bool) (c : Ctx) (s : State) (src dst e : Bytes) (sl dl : List Bytes)
+    are untouched. (Same key: `lmove_same_key_rotates`; empty source: `lmove_empty_source`.) -/
+theorem lmove_transfers (fromLeft toLeft : Bool) (c : Ctx) (s : State) (src dst e : Bytes) (sl dl : List Bytes)
     (exs exd : Option Int) (hm : c.cfg.maxMemory = 0) (hne : src ≠ dst)
     (hs : s.lookup c.db src = some ⟨.list sl, exs⟩) (hslive : (⟨.list sl, exs⟩ : Entry).expired c.now = false)
     (hd : s.lookup c.db dst = some ⟨.list dl, exd⟩) (hdlive : (⟨.list dl, exd⟩ : Entry).expired c.now = false)
@@ -433,9 +550,63 @@ theorem lmove_partial (fromLeft toLeft : Bool) (c : Ctx) (s : State) (src dst e 
   refine ⟨(setValues c s [(src, .list (if fromLeft then sl.drop 1 else sl.dropLast)),
     (dst, .list (if toLeft then e :: dl else dl ++ [e]))]).1, ?_, by rw [p2, hs]; rfl, by rw [p3, hd]; rfl, p4⟩
   have hg := getValues_live2 c s src dst _ _ hs hslive hd hdlive
+  have hsl : sl ≠ [] := by intro h0; subst h0; cases fromLeft <;> simp at he
   cases fromLeft <;> cases toLeft <;>
     simp only [Bool.false_eq_true, if_false, if_true, List.drop_one] at he p1 ⊢ <;>
-    simp [handleLMove, dirTok, dir_facts, keysExist_pair, hs, hd, hg, asList?, he, setOrErr, p1]
+    simp [handleLMove, dirTok, dir_facts, keysExist_pair, hs, hd, hg, asList?, he, setOrErr, p1, hsl, hne]
+
+/-- the list with the element at the chosen end taken out and put back at the chosen end -/
+def rotated (fromLeft toLeft : Bool) (sl : List Bytes) (e : Bytes) : List Bytes :=
+  let rest := if fromLeft then sl.drop 1 else sl.dropLast
+  if toLeft then e :: rest else rest ++ [e]
+
+/-- **LMOVE with the same key as source and destination rotates the list**: the element at the chosen end is
+    taken out and put back at the chosen end of what is left — it is in the list once, not twice; the
+    deadline and all other keys are untouched -/
+theorem lmove_same_key_rotates (fromLeft toLeft : Bool) (c : Ctx) (s : State) (k e : Bytes) (sl : List Bytes)
+    (ex : Option Int) (hm : c.cfg.maxMemory = 0)
+    (hs : s.lookup c.db k = some ⟨.list sl, ex⟩) (hslive : (⟨.list sl, ex⟩ : Entry).expired c.now = false)
+    (he : (if fromLeft then sl.head? else sl.getLast?) = some e) :
+    ∃ s', (handleLMove c [b "lmove", k, k, dirTok fromLeft, dirTok toLeft]).run c s = (s', .done (.ok okReply)) ∧
+      s'.lookup c.db k = some ⟨.list (rotated fromLeft toLeft sl e), ex⟩ ∧
+      ∀ k2, k ≠ k2 → s'.lookup c.db k2 = s.lookup c.db k2 := by
+  refine ⟨(setValues c s [(k, .list (rotated fromLeft toLeft sl e))]).1, ?_,
+    setValues_over c s k _ _ ex hm hs, fun k2 hne => setValues_other c s k k2 _ hm hne⟩
+  have hs1 := (setValues_single c s k (.list (rotated fromLeft toLeft sl e)) hm).1
+  have hg := getValues_live2 c s k k _ _ hs hslive hs hslive
+  have hsl : sl ≠ [] := by intro h0; subst h0; cases fromLeft <;> simp at he
+  cases fromLeft <;> cases toLeft <;>
+    simp only [Bool.false_eq_true, if_false, if_true, List.drop_one, rotated] at he hs1 ⊢ <;>
+    simp [handleLMove, dirTok, dir_facts, keysExist_pair, hs, hg, asList?, he, setOrErr, hsl, setValues_pair_same, hs1]
+
+/-- a rotation keeps the length; taking from and putting back at the same end leaves the list as it was -/
+theorem rotated_facts (fromLeft toLeft : Bool) (sl : List Bytes) (e : Bytes)
+    (he : (if fromLeft then sl.head? else sl.getLast?) = some e) :
+    (rotated fromLeft toLeft sl e).length = sl.length ∧ (fromLeft = toLeft → rotated fromLeft toLeft sl e = sl) := by
+  have hsl : sl ≠ [] := by intro h0; subst h0; cases fromLeft <;> simp at he
+  have hpos : 0 < sl.length := List.length_pos_iff.mpr hsl
+  refine ⟨?_, fun heq => ?_⟩
+  · cases fromLeft <;> cases toLeft <;> simp [rotated] <;> omega
+  · subst heq
+    cases fromLeft
+    · simp only [Bool.false_eq_true, if_false, rotated] at he ⊢
+      obtain ⟨ys, rfl⟩ := List.getLast?_eq_some_iff.mp he
+      simp
+    · simp only [if_true, rotated] at he ⊢
+      cases sl with
+      | nil => simp at he
+      | cons x r => simp at he; subst he; simp
+
+/-- **LMOVE from a stored empty list (left behind by LPOP / LTRIM / LREM) moves nothing**: it answers nil
+    and the state is unchanged, whatever the directions and whether or not the two keys are the same -/
+theorem lmove_empty_source (fromLeft toLeft : Bool) (c : Ctx) (s : State) (src dst : Bytes) (dl : List Bytes)
+    (exs exd : Option Int)
+    (hs : s.lookup c.db src = some ⟨.list [], exs⟩) (hslive : (⟨.list [], exs⟩ : Entry).expired c.now = false)
+    (hd : s.lookup c.db dst = some ⟨.list dl, exd⟩) (hdlive : (⟨.list dl, exd⟩ : Entry).expired c.now = false) :
+    (handleLMove c [b "lmove", src, dst, dirTok fromLeft, dirTok toLeft]).run c s = (s, .done (.ok nilBulk)) := by
+  have hg := getValues_live2 c s src dst _ _ hs hslive hd hdlive
+  cases fromLeft <;> cases toLeft <;>
+    simp [handleLMove, dirTok, dir_facts, keysExist_pair, hs, hd, hg, asList?]
 
 /-! ### a list command on a non-list key fails without changing it -/
 
@@ -655,6 +826,25 @@ theorem ops_refine (c : Ctx) (k : Bytes) (ex : Option Int) (hm : c.cfg.maxMemory
     simp only [runOps, refOps, h1, h3]
     exact ⟨trivial, h4⟩
 
+/-! ### no list command panics -/
+
+/-- **No list command ever panics**: for every argument vector, every context and every state, the run of
+    each of the eleven list handlers (LLEN, LINDEX, LRANGE, LSET, LTRIM, LREM, LMOVE, LPUSH(X), RPUSH(X),
+    LPOP, RPOP) ends in a reply or an error, never in a Go runtime panic. (LRANGE, LTRIM and LMOVE used to
+    index outside the list — classes `lrange-index-panic`, `ltrim-index-panic`, `lmove-empty-source-panic`;
+    the index checks are still part of the model and are proved unreachable.) -/
+theorem list_commands_never_panic (c : Ctx) (cmd : List Bytes) (s : State) (w : String) :
+    ((handleLLen c cmd).run c s).2 ≠ .panic w ∧ ((handleLIndex c cmd).run c s).2 ≠ .panic w ∧
+    ((handleLRange c cmd).run c s).2 ≠ .panic w ∧ ((handleLSet c cmd).run c s).2 ≠ .panic w ∧
+    ((handleLTrim c cmd).run c s).2 ≠ .panic w ∧ ((handleLRem c cmd).run c s).2 ≠ .panic w ∧
+    ((handleLMove c cmd).run c s).2 ≠ .panic w ∧ (∀ left, ((handlePush left c cmd).run c s).2 ≠ .panic w) ∧
+    ((handlePop c cmd).run c s).2 ≠ .panic w :=
+  ⟨noPanic_run c _ s (handleLLen_np c cmd) w, noPanic_run c _ s (handleLIndex_np c cmd) w,
+   noPanic_run c _ s (handleLRange_np c cmd) w, noPanic_run c _ s (handleLSet_np c cmd) w,
+   noPanic_run c _ s (handleLTrim_np c cmd) w, noPanic_run c _ s (handleLRem_np c cmd) w,
+   noPanic_run c _ s (handleLMove_np c cmd) w, fun left => noPanic_run c _ s (handlePush_np left c cmd) w,
+   noPanic_run c _ s (handlePop_np c cmd) w⟩
+
 /-! ### where the full statement fails (model witnesses; each is a class of Known.classifyColl) -/
 
 /-- a concrete context and a state holding the list a b c at `k`, the list a a at `d`, the empty list at `e`,
@@ -666,42 +856,53 @@ def s0 : State := { dbs := [(0, ⟨[(b "k", ⟨.list [b "a", b "b", b "c"], none
                                   (b "str", ⟨.str (b "v"), none⟩),
                                   (b "old", ⟨.list [b "x"], some 500⟩)], [b "d", b "old"]⟩)], mem := 0 }
 
-/-- class `lrange-negative-end-miscomputed`: LRANGE k 0 -2 on a b c returns all three elements (a b expected) -/
-theorem lrange_negative_end_witness :
-    ((handleLRange c0 [b "lrange", b "k", b "0", b "-2"]).run c0 s0).2
-      = .done (.ok (bulkArr [b "a", b "b", b "c"])) := by decide
-
-/-- class `lrange-index-panic`: an end index equal to the length panics (clamping expected) -/
-theorem lrange_end_eq_len_panics_witness :
-    ((handleLRange c0 [b "lrange", b "k", b "0", b "3"]).run c0 s0).2 = .panic "index out of range" := by decide
-
-/-- class `lrange-index-panic`: a start index before the head panics (clamping to 0 expected) -/
-theorem lrange_start_before_head_panics_witness :
-    ((handleLRange c0 [b "lrange", b "k", b "-5", b "1"]).run c0 s0).2 = .panic "index out of range" := by decide
-
-/-- class `ltrim-index-panic`: LTRIM with a start index before the head panics -/
-theorem ltrim_start_before_head_panics_witness :
-    ((handleLTrim c0 [b "ltrim", b "k", b "-5", b "1"]).run c0 s0).2 = .panic "slice bounds out of range" := by decide
-
-/-- class `lrem-skips-adjacent-matches`: LREM d 0 a on the list a a removes only one a (reply 1, a left) -/
-theorem lrem_skips_adjacent_witness :
-    ((handleLRem c0 [b "lrem", b "d", b "0", b "a"]).run c0 s0).2 = .done (.ok (intReply 1)) ∧
-    ((handleLRem c0 [b "lrem", b "d", b "0", b "a"]).run c0 s0).1.lookup 0 (b "d") = some ⟨.list [b "a"], some 5000⟩ := by
-  decide +kernel
-
-/-- class `lmove-same-key-duplicates`: LMOVE k k LEFT RIGHT on a b c leaves a b c a (rotation b c a expected) -/
-theorem lmove_same_key_duplicates_witness :
-    ((handleLMove c0 [b "lmove", b "k", b "k", b "LEFT", b "RIGHT"]).run c0 s0).1.lookup 0 (b "k")
-      = some ⟨.list [b "a", b "b", b "c", b "a"], none⟩ := by decide
-
-/-- class `lmove-empty-source-panic`: LMOVE from a stored empty list panics -/
-theorem lmove_empty_source_panics_witness :
-    ((handleLMove c0 [b "lmove", b "e", b "k", b "LEFT", b "RIGHT"]).run c0 s0).2
-      = .panic "slice bounds out of range (empty source)" := by decide
-
 /-- class `expired-key-still-exists`: LLEN on a list whose deadline has passed answers a type error (0 expected) -/
 theorem llen_on_expired_witness :
     ((handleLLen c0 [b "llen", b "old"]).run c0 s0).2 = .done (.err (b "LLEN command on non-list item")) := by decide
+
+/-! ### the repaired inputs: the former witnesses of `lrange-negative-end-miscomputed`, `lrange-index-panic`,
+    `ltrim-index-panic`, `lrem-skips-adjacent-matches`, `lmove-empty-source-panic`, `lmove-same-key-duplicates`,
+    now instances of the laws -/
+
+/-- LRANGE k 0 -2 on a b c returns a b (it used to return all three) -/
+theorem lrange_negative_end_repaired :
+    ((handleLRange c0 [b "lrange", b "k", b "0", b "-2"]).run c0 s0).2 = .done (.ok (bulkArr [b "a", b "b"])) := by decide
+
+/-- an end index equal to the length is clamped to the last element (it used to panic) -/
+theorem lrange_end_eq_len_repaired :
+    ((handleLRange c0 [b "lrange", b "k", b "0", b "3"]).run c0 s0).2
+      = .done (.ok (bulkArr [b "a", b "b", b "c"])) := by decide
+
+/-- a start index before the head is clamped to the head (it used to panic) -/
+theorem lrange_start_before_head_repaired :
+    ((handleLRange c0 [b "lrange", b "k", b "-5", b "1"]).run c0 s0).2 = .done (.ok (bulkArr [b "a", b "b"])) := by decide
+
+/-- LTRIM with a start index before the head keeps a b (it used to panic) -/
+theorem ltrim_start_before_head_repaired :
+    ((handleLTrim c0 [b "ltrim", b "k", b "-5", b "1"]).run c0 s0).2 = .done (.ok okReply) ∧
+    ((handleLTrim c0 [b "ltrim", b "k", b "-5", b "1"]).run c0 s0).1.lookup 0 (b "k")
+      = some ⟨.list [b "a", b "b"], none⟩ := by decide +kernel
+
+/-- LREM d 0 a on the list a a removes both (it used to remove one and reply 1) -/
+theorem lrem_adjacent_repaired :
+    ((handleLRem c0 [b "lrem", b "d", b "0", b "a"]).run c0 s0).2 = .done (.ok (intReply 2)) ∧
+    ((handleLRem c0 [b "lrem", b "d", b "0", b "a"]).run c0 s0).1.lookup 0 (b "d") = some ⟨.list [], some 5000⟩ ∧
+    ((handleLRem c0 [b "lrem", b "d", b "1", b "a"]).run c0 s0).1.lookup 0 (b "d") = some ⟨.list [b "a"], some 5000⟩ := by
+  decide +kernel
+
+/-- LMOVE from the stored empty list answers nil and changes nothing (it used to panic) -/
+theorem lmove_empty_source_repaired :
+    (handleLMove c0 [b "lmove", b "e", b "k", b "LEFT", b "RIGHT"]).run c0 s0 = (s0, .done (.ok nilBulk)) := by
+  decide +kernel
+
+/-- LMOVE k k LEFT RIGHT on a b c leaves b c a (it used to leave a b c a) -/
+theorem lmove_same_key_repaired :
+    ((handleLMove c0 [b "lmove", b "k", b "k", b "LEFT", b "RIGHT"]).run c0 s0).1.lookup 0 (b "k")
+      = some ⟨.list [b "b", b "c", b "a"], none⟩ ∧
+    ((handleLMove c0 [b "lmove", b "k", b "k", b "RIGHT", b "LEFT"]).run c0 s0).1.lookup 0 (b "k")
+      = some ⟨.list [b "c", b "a", b "b"], none⟩ ∧
+    ((handleLMove c0 [b "lmove", b "k", b "k", b "LEFT", b "LEFT"]).run c0 s0).1.lookup 0 (b "k")
+      = some ⟨.list [b "a", b "b", b "c"], none⟩ := by decide +kernel
 
 /-! ### non-vacuity: every conditional theorem instantiated on the concrete state -/
 
@@ -713,22 +914,23 @@ example := llen_length c0 s0 (b "k") _ _ s0_k (by decide)
 example := llen_absent c0 s0 (b "nokey") (by decide)
 example := lindex_read c0 s0 (b "k") (b "-1") (-1) _ _ s0_k (by decide) (by decide)
 example := lindex_head_last c0 s0 (b "k") _ _ _ s0_k (by decide)
-example := lrange_partial c0 s0 (b "k") (b "-2") (b "7") (-2) 7 _ _ s0_k (by decide) (by decide) (by decide)
-  (by decide) (by decide) (by decide)
-example := lrange_neg_end c0 s0 (b "k") (b "1") (b "-1") 1 (-1) _ _ s0_k (by decide) (by decide) (by decide)
-  (by decide) (by decide)
+example := lrange_range c0 s0 (b "k") (b "-2") (b "7") (-2) 7 _ _ s0_k (by decide) (by decide) (by decide)
+example := lrange_range c0 s0 (b "k") (b "-9") (b "-2") (-9) (-2) _ _ s0_k (by decide) (by decide) (by decide)
+example := inclRange_inner [b "a", b "b", b "c"] 1 2 (by decide) (by decide)
+example := inclRange_neg_end [b "a", b "b", b "c"] 2 (by decide) (by decide)
 example := lrange_all c0 s0 (b "d") _ _ s0_d (by decide)
 example := lrange_absent c0 s0 (b "nokey") (b "0") (b "1") (by decide)
 example := lset_replaces c0 s0 (b "k") (b "-1") (b "z") (-1) _ _ rfl s0_k (by decide) (by decide) (by decide)
 example := lset_out_of_range c0 s0 (b "k") (b "3") (b "z") 3 _ _ s0_k (by decide) (by decide) (by decide)
-example := ltrim_keeps_range_partial c0 s0 (b "k") (b "1") (b "-1") 1 (-1) _ _ rfl s0_k (by decide) (by decide)
-  (by decide) (by decide) (by decide)
-example := ltrim_empty_range_deletes_partial c0 s0 (b "k") (b "2") (b "1") 2 1 _ _ s0_k (by decide) (by decide)
-  (by decide) (by decide) (by decide)
+example := ltrim_keeps_range c0 s0 (b "k") (b "-5") (b "-2") (-5) (-2) _ _ rfl s0_k (by decide) (by decide)
+  (by decide) (by decide)
+example := ltrim_empty_range_deletes c0 s0 (b "k") (b "2") (b "1") 2 1 _ _ s0_k (by decide) (by decide)
+  (by decide) (by decide)
 example := lrem_from_tail c0 s0 (b "d") (b "-1") (b "a") (-1) _ _ rfl s0_d (by decide) (by decide) (by decide)
-example := lrem_from_head_partial c0 s0 (b "k") (b "2") (b "a") 2 _ _ rfl s0_k (by decide) (by decide) (by decide)
-  (by decide)
-example := lrem_all_partial c0 s0 (b "k") (b "0") (b "b") _ _ rfl s0_k (by decide) (by decide) (by decide)
+example := lrem_from_head c0 s0 (b "d") (b "1") (b "a") 1 _ _ rfl s0_d (by decide) (by decide) (by decide)
+example := lrem_all c0 s0 (b "d") (b "0") (b "a") _ _ rfl s0_d (by decide) (by decide)
+example := lrem_refines c0 s0 (b "d") (b "-2") (b "a") (-2) _ _ rfl s0_d (by decide) (by decide)
+example : lremRef [b "a", b "a", b "a", b "y"] (b "a") 0 = [b "y"] ∧ lremRef [b "a", b "a", b "a", b "y"] (b "a") 2 = [b "a", b "y"] := by decide
 example := push_existing true true c0 s0 (b "k") (b "x") [b "y"] _ _ rfl s0_k (by decide)
 example := push_one c0 s0 (b "k") (b "x") _ _ rfl s0_k (by decide)
 example := push_creates false c0 s0 (b "nokey") (b "x") [b "y"] rfl (by decide)
@@ -737,8 +939,11 @@ example := lpop_head c0 s0 (b "k") _ _ _ rfl s0_k (by decide)
 example := rpop_last c0 s0 (b "k") _ (by decide) _ rfl s0_k (by decide)
 example := lpop_count c0 s0 (b "k") (b "2") 2 _ (by decide) _ rfl s0_k (by decide) (by decide) (by decide)
 example := rpop_count c0 s0 (b "k") (b "5") 5 _ (by decide) _ rfl s0_k (by decide) (by decide) (by decide)
-example := lmove_partial true false c0 s0 (b "k") (b "d") (b "a") _ _ _ _ rfl (by decide) s0_k (by decide) s0_d
+example := lmove_transfers true false c0 s0 (b "k") (b "d") (b "a") _ _ _ _ rfl (by decide) s0_k (by decide) s0_d
   (by decide) (by decide)
+example := lmove_same_key_rotates true false c0 s0 (b "k") (b "a") _ _ rfl s0_k (by decide) (by decide)
+example := rotated_facts false false [b "a", b "b", b "c"] (b "c") (by decide)
+example := lmove_empty_source true false c0 s0 (b "e") (b "k") _ none _ (by decide) (by decide) s0_k (by decide)
 example := wrongtype_no_change c0 s0 (b "str") _ _ s0_str (by decide) (by decide) (b "0") (b "1") (b "x") [] 0 1
   (by decide) (by decide)
 example := lmove_wrongtype_no_change true true c0 s0 (b "k") (b "str") _ _ _ _ s0_k (by decide) s0_str (by decide)
